@@ -184,7 +184,7 @@ func (c C14) Run(t *tape.Tape, opt core.RunOpt) (res core.Result) {
 		res.Count("probe_runs_on_warm_zoo_root", 1)
 	}
 	root := newRoot()
-	gen := &workload.Gen{T: t, GoExtends: zooMode}
+	gen := &workload.Gen{T: t, GoExtends: zooMode, TypeNamedDirectives: true}
 	var good []*c14Load
 	var ops []c14Op
 	var retry []workload.Fragment // valid fragments of the document refused last
